@@ -16,12 +16,27 @@ MUT_RX = re.compile(r"^(Set|Put|Remove|Append|Ensure|Move|CopyTo$|FromRaw$|Sort$
 METHOD_RX = re.compile(r"^func \((\w+) (\w+)\) (\w+)\((.*)$")
 
 
+def _overlaid(path):
+    """The scan reads what the harnesses are compiled against: a file replaced through VERIF_EXTRA_OVERLAY
+    (lib/try_patch.py, BUILDING.md section 5) is read from its replacement."""
+    xo = os.environ.get("VERIF_EXTRA_OVERLAY")
+    if xo and os.path.exists(xo):
+        try:
+            import json
+            rep = json.load(open(xo)).get("Replace", {})
+            if rep.get(path):
+                return rep[path]
+        except Exception:
+            pass
+    return path
+
+
 def scan_package(pkgdir):
     """Source scan of one pdata package: wrapper types, their zero-argument constructors and, for
     every exported method, (writes through orig or has a mutator name, first statement is AssertMutable)."""
     wrappers, ctors, methods = set(), {}, []
     files = sorted(f for f in os.listdir(pkgdir) if f.endswith(".go") and not f.endswith("_test.go"))
-    srcs = {f: open(os.path.join(pkgdir, f), encoding="utf-8").read() for f in files}
+    srcs = {f: open(_overlaid(os.path.join(pkgdir, f)), encoding="utf-8").read() for f in files}
     for f, src in srcs.items():
         for m in re.finditer(r"^type (\w+) struct \{\n\s*orig\s", src, re.M):
             wrappers.add(m.group(1))
@@ -95,7 +110,9 @@ class P(vlib.Prop):
             "each step the values of the written handles (all handles after the last step), the panic flag and the capacities of the "
             "struct slices are compared with the Coq model (cstep over pmetric_schema, observed capacities as growth oracle). A case is "
             "non-trivial when it contains at least one CopyTo that did not panic. sweep_*: reflection sweep over every wrapper type of the "
-            "five packages (read-only mutators, CopyTo into 4 destination shapes, MoveTo, MoveAndAppendTo): direct oracle only.")
+            "five packages: every method with argument variants (present/absent keys, indexes, predicates, raw values) on filled and "
+            "fresh read-only receivers, CopyTo into 4 destination shapes, MoveTo / MoveAndAppendTo followed by re-use of the moved-from "
+            "value: direct oracle only.")
     trusted_base = [
         "Coq 8.16.1 kernel + vm_compute (coqc); no axioms (Print Assumptions: closed under the global context)",
         "memory model of C07/Model.v: the acyclic pdata object graph presented as its unfolding with addresses (structural update = heap update while no address occurs twice); Go's append/make/reslice/clear semantics as written there",
